@@ -37,7 +37,7 @@ ASSUMPTIONS = [
     "never imports pipefunc",
     "dump with a slice key writes the given value (whole) into every selected external element - the semantics "
     "pinned by tests/map/storage/test_all_storage.py (test_high_dim_with_slicing, test_with_internal_shape_list)",
-    "values are unique strings (object arrays of the internal shape holding unique strings when there is an "
+    "values are unique strings - some writes store None / 0 / False instead - (object arrays of the internal shape holding unique strings when there is an "
     "internal shape); axis sizes >= 1",
     "not checked because the statement does not determine them: has_index / get_from_index outside 0..size-1 or on "
     "unwritten elements, reopening a dict-family array without persist(), non-tuple keys, "
@@ -166,11 +166,16 @@ def apply_to_model(model, op, tag):
 
 
 def make_value(I, tag):
+    """Unique strings, except that some writes store None / 0 / False (falsy values must read back as written,
+    not as 'missing')."""
+    special = {3: None, 5: 0, 9: False}.get(tag % 11, "")
     if not I:
-        return f"v{tag}"
+        return f"v{tag}" if special == "" else special
     a = np.empty(I, dtype=object)
-    for idx in np.ndindex(*I):
+    for n, idx in enumerate(np.ndindex(*I)):
         a[idx] = f"v{tag}." + ".".join(map(str, idx))
+        if special != "" and n == 0:
+            a[idx] = special
     return a
 
 
